@@ -32,6 +32,18 @@ pub fn types(atoms: &[RType], callees: &[Vec<String>], depth: usize) -> Vec<RTyp
         }
         level = next;
     }
+    // three and four generic arguments, over the atoms and the first generic types (not squared further)
+    let pool: Vec<RType> = atoms.iter().cloned().chain(level.iter().filter(|t| matches!(t, RType::Complex(..))).take(4).cloned()).collect();
+    for c in callees {
+        for a in &pool {
+            for b in pool.iter().take(4) {
+                for d in pool.iter().rev().take(3) {
+                    level.push(RType::Complex(c.clone(), vec![a.clone(), b.clone(), d.clone()]));
+                    level.push(RType::Complex(c.clone(), vec![b.clone(), d.clone(), a.clone(), b.clone()]));
+                }
+            }
+        }
+    }
     level
 }
 
@@ -158,7 +170,86 @@ pub fn use_sites(emitted: &str) -> Result<Vec<(String, String, u8)>, String> {
     Ok(out)
 }
 
+/// Other grammar shapes around the same payload types: both terminals with the same type; a terminal
+/// used only in a `_` field; a terminal used only in a named field of an enum variant; an unused terminal.
+pub fn shaped_grammar(shape: usize, t1: &str, t2: &str) -> String {
+    match shape % 4 {
+        0 => format!("start S1\nstruct S1($Tt $Uu)\nterminal Tok {{\n    $Tt: {t1}\n    $Uu: {t1}\n}}\n"),
+        1 => format!("start S1\nenum S1 {{\n    V1 {{\n        _: $Vv\n        a: $Tt\n    }}\n    V2(_: $Uu)\n}}\nterminal Tok {{\n    $Tt: {t1}\n    $Uu: {t2}\n    $Vv: {t2}\n}}\n"),
+        2 => format!("start S1\nenum S1 {{\n    V1 {{\n        only_here: $Ww\n    }}\n    V2($Tt)\n}}\nterminal Tok {{\n    $Tt: {t2}\n    $Ww: {t1}\n    $Unused: {t1}\n}}\n"),
+        _ => format!("terminal Tok {{\n    $Uu: {t2}\n    $Tt: {t1}\n}}\nstruct S2 {{\n    _: $Tt\n    b: $Uu\n    c: $Tt\n}}\nstart S2\n"),
+    }
+}
+
+fn snake(name: &str) -> String {
+    let mut out = String::new();
+    for (i, c) in name.chars().enumerate() {
+        if i > 0 && c.is_uppercase() {
+            out.push('_');
+        }
+        out.push(c.to_ascii_lowercase());
+    }
+    out
+}
+
+/// Checks an arbitrary accepted source: every public use site through the type-definition oracle, and for
+/// every terminal the internal node enum variant and the helper function's return type.
+pub fn check_any_source(src: &str, acc: &mut Acc) -> Option<Finding> {
+    let mk = |what: String, e: Value, o: Value| Finding::new("type_case", json!({"source": src}), what, e, o);
+    let Ok((file, _)) = crate::reffront::parse_source(src) else { return None };
+    let terminals: Vec<(String, String)> = file.items.iter().find_map(|i| if let crate::reffront::RItem::Terminal { variants, .. } = i { Some(variants.iter().map(|v| (v.name.name.clone(), v.ty.tokens().concat())).collect()) } else { None })?;
+    let Gen::Ok(text) = generate(src) else { return None };
+    match crate::typedefs::compare(src, &text) {
+        Ok(None) => acc.inc("sources whose public type definitions were compared"),
+        Ok(Some(d)) => return Some(mk(format!("{d} — {src:?}"), json!("the emitted definitions mirror the declarations"), json!(d))),
+        Err(e) => {
+            acc.inc("emitted texts whose use sites could not be located (oracle not applicable)");
+            if acc.self_check_errors.len() < 3 {
+                acc.self_check_errors.push(format!("C13 typedefs: {e}"));
+            }
+            return None;
+        }
+    }
+    let Ok(toks) = lex_rust(&text) else { return None };
+    let close_paren = |t: &Tok, _j: usize| t.is(')') || t.is(',');
+    // the node enum: the non-public enum that has one variant per nonterminal and per terminal
+    let first_nt = file.items.iter().find_map(|i| match i { crate::reffront::RItem::Struct { name, .. } | crate::reffront::RItem::Enum { name, .. } => Some(name.name.clone()), _ => None })?;
+    let node = find_seq(&toks, &[first_nt.as_str(), "(", first_nt.as_str(), ")"], 0);
+    for (idx, (name, want)) in terminals.iter().enumerate() {
+        if let Some(node) = node {
+            if let Some(i) = find_seq(&toks, &[name.as_str(), "("], node) {
+                let (got, _) = type_tokens(&toks, i + 2, &close_paren);
+                acc.inc("use sites compared");
+                if got != *want {
+                    return Some(mk(format!("internal node enum variant {name} carries `{got}`, declared `{want}` — {src:?}"), json!(want), json!(got)));
+                }
+            }
+        }
+        let fname = format!("try_into_{}_{idx}", snake(name));
+        if let Some(f) = find_seq(&toks, &["fn", fname.as_str()], 0) {
+            if let Some(r) = find_seq(&toks, &["Result", "<"], f) {
+                let stop = |t: &Tok, j: usize| t.is(',') && toks.get(j + 1).map(|x| x.is_ident("Self")).unwrap_or(false) && toks.get(j + 2).map(|x| x.is('>')).unwrap_or(false);
+                let (got, _) = type_tokens(&toks, r + 2, &stop);
+                acc.inc("use sites compared");
+                if got != *want {
+                    return Some(mk(format!("helper function {fname} returns `{got}`, declared `{want}` — {src:?}"), json!(want), json!(got)));
+                }
+            }
+        }
+    }
+    None
+}
+
 pub fn check_pair(t1: &RType, t2: &RType, variant: usize, acc: &mut Acc) -> Option<Finding> {
+    // the other grammar shapes first (generic oracle), then the 12-site grammar
+    for shape in 0..4 {
+        if (variant + shape) % 2 == 0 || variant % 16 == 0 {
+            let src = shaped_grammar(shape, &spell(t1, variant + shape), &spell(t2, variant + 1));
+            if let Some(f) = check_any_source(&src, acc) {
+                return Some(f);
+            }
+        }
+    }
     let src = grammar_for(&spell(t1, variant), &spell(t2, variant + 1));
     let want = [t1.tokens().concat(), t2.tokens().concat()];
     let mk = |what: String, e: Value, o: Value| Finding::new("type_case", json!({"source": src}), what, e, o);
@@ -271,7 +362,7 @@ pub fn run(ctx: &Ctx) -> Outcome {
     let located_all = acc.get("emitted texts whose use sites could not be located (oracle not applicable)") == 0;
     out.cov("evaluations", json!(n as u64 + units.len() as u64));
     out.cov("distinct_nontrivial", json!(n as u64 - 1));
-    out.cov("rule", json!(format!("all type expressions of nesting depth <= {depth} over {} atoms (unit, paths of 1-3 segments) and {} generic callees with 1 or 2 arguments, plus a chain of deeper nestings; each is spelt with rotating whitespace/comments between its tokens and declared as the payload of terminal Tt (terminal Uu gets another type of the space) in a grammar exposing 12 use sites; distinct = distinct type expressions, non-trivial = not the unit type", atoms.len(), callees.len())));
+    out.cov("rule", json!(format!("all type expressions of nesting depth <= {depth} over {} atoms (unit, paths of 1-3 segments) and {} generic callees with 1 or 2 arguments (3 and 4 over the atoms), plus a chain of deeper nestings; each is spelt with rotating whitespace/comments between its tokens and declared as the payload of terminal Tt (terminal Uu gets another type of the space) in a grammar exposing 12 use sites and in four further grammar shapes (same type for two terminals, a terminal used only in a `_` field, only in a named variant field, unused; checked through the general type-definition oracle); distinct = distinct type expressions, non-trivial = not the unit type", atoms.len(), callees.len())));
     out.cov("exhaustive", json!(true));
     out.cov("use_sites_compared", json!(acc.get("use sites compared")));
     out.cov("all_use_sites_located", json!(located_all));
